@@ -59,6 +59,9 @@ Scr(k, len, ch) ==
             LET b7 == ch[1].scr[IP] IN
             << IF b7 > len THEN len + b7 ELSE len, IF b7 > len THEN b7 ELSE 0, b7 >>
 
+\* AVX mixed-radix stages (src/avx/avx_mixed_radix.rs, mixedradix_gen_data!): Rxn over an inner transform
+AvxRadixScr(len, inner) == << len + inner[OOP], IF inner[IP] > len THEN inner[IP] ELSE 0, len + inner[IP] >>
+
 \* preconditions of the *Small algorithms on their children (constructor asserts)
 SmallPre(ch) == \A i \in DOMAIN ch : ch[i].scr[OOP] = 0 /\ ch[i].scr[IP] <= ch[i].len
 
